@@ -7,6 +7,7 @@ sys.path.insert(0, HERE)
 os.chdir(HERE)
 ids = [json.loads(l)["id"] for l in open("properties.jsonl")]
 checks, na = [], []
+claimed = set(open("tools/claimed.txt").read().split())   # the lead lists a property here once its check is verified green
 for pid in ids:
     path = "props/%s.py" % pid.lower()
     meta = None
@@ -14,7 +15,7 @@ for pid in ids:
         src = open(path).read()
         if "META" in src:
             meta = importlib.import_module("props." + pid.lower()).META
-    if not meta or not meta.get("claimed", True):
+    if not meta or not meta.get("claimed", True) or pid not in claimed:
         na.append({"property_id": pid, "reason": (meta or {}).get(
             "reason", "not claimed yet: its model, theorem and tie are designed in DESIGN.md section 5 but not built; no check is registered until the theorem is Qed and the tie runs")})
         continue
